@@ -80,12 +80,13 @@ func c10Select(kind, layout string, need int, attempt uint, msg int64, member in
 	ops := c10Operators(layout)
 	n := len(layout)
 	rd := c10Ready(ready)
-	orig := fmt.Sprint(rd)
 	var excluded []group.MemberIndex
 	p, _ := vrep.Guard(func() {
 		if kind == "signing" {
 			srl := newSigningRetryLoop(&testutils.MockLogger{}, big.NewInt(msg), 100, group.MemberIndex(member), ops,
-				&GroupParameters{GroupSize: n, GroupQuorum: n, HonestThreshold: need}, nil, nil)
+				// the wallet is one seat smaller than the nominal group size (members
+				// that misbehaved in DKG are not part of the wallet)
+				&GroupParameters{GroupSize: n + 1, GroupQuorum: n, HonestThreshold: need}, nil, nil)
 			srl.attemptCounter = attempt
 			excluded, res.err = srl.performMembersSelection(rd)
 		} else {
@@ -96,8 +97,10 @@ func c10Select(kind, layout string, need int, attempt uint, msg int64, member in
 		}
 	})
 	res.panicked = p
-	if fmt.Sprint(rd) != orig {
-		res.malformed = "the ready list passed in was modified"
+	for i := range rd {
+		if rd[i] != group.MemberIndex(ready[i]-'0') {
+			res.malformed = "the ready list passed in was modified"
+		}
 	}
 	seen := uint(0)
 	for _, e := range excluded {
@@ -133,41 +136,40 @@ func c10Single(r *vrep.R, c c10Case, member int, ready string, res c10Result) st
 		all |= 1 << uint(i)
 	}
 	size := n*100000 + len(ready)*1000 + int(c.Attempt)*10
-	fp := fmt.Sprintf("%s layout=%s need=%d attempt=%d msg=%d", c.Kind, c.Layout, c.Need, c.Attempt, c.Msg)
-	one := c
-	one.MemberA, one.ReadyA, one.MemberB, one.ReadyB = member, ready, member, ready
 	report := func(kind, what string) {
-		r.ViolationMin(c.Kind+":"+kind, size, fp+fmt.Sprintf(" member=%d ready=%s", member, ready), what, one)
+		one := c
+		one.MemberA, one.ReadyA, one.MemberB, one.ReadyB = member, ready, member, ready
+		fp := fmt.Sprintf("%s layout=%s need=%d attempt=%d msg=%d member=%d ready=%s", c.Kind, c.Layout, c.Need, c.Attempt, c.Msg, member, ready)
+		r.ViolationMin(c.Kind+":"+kind, size, fp, fmt.Sprintf("member %d with ready list %s: ", member, ready)+what, one)
 	}
-	who := fmt.Sprintf("member %d with ready list %s", member, ready)
 	readyMask := c10Mask(c10Ready(ready))
 	if res.panicked != nil {
-		report("panic", fmt.Sprintf("%s: selection panicked: %v", who, res.panicked))
+		report("panic", fmt.Sprintf("selection panicked: %v", res.panicked))
 		return c.Kind + ":panic"
 	}
 	if res.malformed != "" {
-		report("malformed", who+": "+res.malformed)
+		report("malformed", res.malformed)
 	}
 	if res.err != nil {
 		if c.Kind == "signing" {
 			// the ready set has at least the threshold: the signing selection has no
 			// reason to fail
-			report("error", fmt.Sprintf("%s: selection failed although %d >= %d members are ready: %v", who, c10Bits(readyMask), c.Need, res.err))
+			report("error", fmt.Sprintf("selection failed although %d >= %d members are ready: %v", c10Bits(readyMask), c.Need, res.err))
 		}
 		return c.Kind + ":error"
 	}
 	included := all &^ res.excluded
 	if included&^readyMask != 0 {
-		report("unready-included", fmt.Sprintf("%s: included %s contains members that are not ready", who, c10Set(included)))
+		report("unready-included", fmt.Sprintf("included %s contains members that are not ready", c10Set(included)))
 	}
 	if c.Kind == "signing" {
 		if c10Bits(included) != c.Need {
-			report("count", fmt.Sprintf("%s: %d members included %s, the honest threshold is %d", who, c10Bits(included), c10Set(included), c.Need))
+			report("count", fmt.Sprintf("%d members included %s, the honest threshold is %d", c10Bits(included), c10Set(included), c.Need))
 		}
-		return fmt.Sprintf("signing:ready-surplus=%d", c10Bits(readyMask)-c.Need)
+		return "signing:ready-surplus=" + string(rune('0'+c10Bits(readyMask)-c.Need))
 	}
 	if c10Bits(included) < c.Need {
-		report("below-quorum", fmt.Sprintf("%s: selection succeeded with %d members %s, below the quorum %d", who, c10Bits(included), c10Set(included), c.Need))
+		report("below-quorum", fmt.Sprintf("selection succeeded with %d members %s, below the quorum %d", c10Bits(included), c10Set(included), c.Need))
 	}
 	// included = ready members of a set of (qualified) operators: an operator with an
 	// included seat has all its ready seats included
@@ -187,7 +189,7 @@ func c10Single(r *vrep.R, c c10Case, member int, ready string, res c10Result) st
 		}
 	}
 	if want != included {
-		report("not-operator-closed", fmt.Sprintf("%s: included %s is not the set of ready members of a set of operators (would be %s)", who, c10Set(included), c10Set(want)))
+		report("not-operator-closed", fmt.Sprintf("included %s is not the set of ready members of a set of operators (would be %s)", c10Set(included), c10Set(want)))
 	}
 	dropped := 0
 	for i := range opsIn {
@@ -195,7 +197,7 @@ func c10Single(r *vrep.R, c c10Case, member int, ready string, res c10Result) st
 			dropped++
 		}
 	}
-	return fmt.Sprintf("dkg:operators-dropped=%d", dropped)
+	return "dkg:operators-dropped=" + string(rune('0'+dropped))
 }
 
 // c10Agree checks that the two results of case c are the same selection.
@@ -204,6 +206,9 @@ func c10Agree(r *vrep.R, c c10Case, ra, rb c10Result) {
 		return
 	}
 	size := len(c.Layout)*100000 + len(c.ReadyA)*1000 + int(c.Attempt)*10
+	if (ra.err == nil) == (rb.err == nil) && (ra.err != nil || ra.excluded == rb.excluded) {
+		return
+	}
 	fp := fmt.Sprintf("%s layout=%s need=%d attempt=%d msg=%d A=%d/%s B=%d/%s", c.Kind, c.Layout, c.Need, c.Attempt, c.Msg, c.MemberA, c.ReadyA, c.MemberB, c.ReadyB)
 	if (ra.err == nil) != (rb.err == nil) {
 		r.ViolationMin(c.Kind+":disagree", size, fp, fmt.Sprintf("member %d (ready %s) got error %v, member %d (ready %s) got error %v", c.MemberA, c.ReadyA, ra.err, c.MemberB, c.ReadyB, rb.err), c)
@@ -240,11 +245,11 @@ func TestVerifC10(t *testing.T) {
 	// (seats, operators) pairs: every layout of that many seats over that many names
 	type dim struct{ seats, ops int }
 	dims := []dim{{2, 4}, {3, 4}, {4, 4}, {5, 3}}
-	attempts, msgs := uint(3), []int64{100, 1 << 40}
+	attempts, msgs := uint(3), []int64{100}
 	allNeeds := false
 	if r.Thorough() {
 		dims = []dim{{2, 4}, {3, 4}, {4, 4}, {5, 4}, {6, 3}}
-		attempts, msgs = 5, []int64{100, 7, 1 << 40, 0, 12345678901}
+		attempts, msgs = 4, []int64{100, 1 << 40}
 		allNeeds = true
 	}
 	var work []c10Work
@@ -253,8 +258,8 @@ func TestVerifC10(t *testing.T) {
 		gen = func(p string) {
 			if len(p) == d.seats {
 				lo := d.seats/2 + 1
-				if allNeeds {
-					lo = 1
+				if allNeeds && d.seats <= 5 {
+					lo = 2 // also thresholds below the majority: larger surplus to trim
 				}
 				for need := lo; need <= d.seats; need++ {
 					if need == d.seats && d.seats > 2 {
